@@ -28,7 +28,7 @@ def _alarm(*_):
 
 signal.signal(signal.SIGALRM, _alarm)
 # Voyager mode 1 at 50 GHz: 4 slots per channel, 100 Gbit/s per channel
-NS = [None, -100, -276, 0]
+NS = [None, -100, -276, 0, 600]          # 600: beyond the last slot of the C band maps (-292 .. 484)
 MS = [None, 4, 8, 12, 0, 2]
 entries = [(n, m) for n in NS for m in MS]
 combos = [[e] for e in entries] + [list(c) for c in itertools.product(entries, repeat=2)]
@@ -39,10 +39,10 @@ else:
     rnd = random.Random(a.seed)
     combos += [[rnd.choice(entries) for _ in range(3)] for _ in range(150)]
 for slots in combos:
-    for bw in (100e9, 300e9):
+    for bw, mode in ((100e9, 'mode 1'), (300e9, 'mode 1'), (100e9, None)):
         cases += 1
-        key = f'slots {slots}, {bw * 1e-9:.0f} Gbit/s'
-        r = service('r', 'A', 'C', mode='mode 1', bw=bw)
+        key = f'slots {slots}, {bw * 1e-9:.0f} Gbit/s' + ('' if mode else ', mode left to the planner')
+        r = service('r', 'A', 'C', mode=mode, bw=bw)
         r['path-constraints']['te-bandwidth']['effective-freq-slot'] = [{'N': n, 'M': m} for n, m in slots]
         signal.alarm(30)
         try:
@@ -76,14 +76,37 @@ for slots in combos:
         fixed_m = sorted(m for _, m in slots if m is not None)
         if all(m is not None for _, m in slots) and sorted(rq.M) != fixed_m:
             prob.append(f'every entry fixes M ({fixed_m}) but M {sorted(rq.M)} was assigned')
+        for n, m in zip(rq.N, rq.M):
+            if not (-292 <= n - m and n + m - 1 <= 484):
+                prob.append(f'N={n}, M={m} assigned outside the slot range of the line (-292 .. 484)')
         spans = sorted((n - m, n + m - 1) for n, m in zip(rq.N, rq.M))
         if any(x[1] >= y[0] for x, y in zip(spans, spans[1:])):
             prob.append(f'assigned ranges overlap: {spans}')
         need = 4 * int(-(-bw // 100e9))
-        if sum(rq.M) < need:
+        if mode is not None and sum(rq.M) < need:
             prob.append(f'{sum(rq.M)} slots assigned, {need} needed for {bw * 1e-9:.0f} Gbit/s')
         if prob:
             wit.append({'key': key, 'problems': prob[:3], 'assigned': {'N': rq.N, 'M': rq.M}})
+# the guard band at both ends of the amplified band: a service may not reach into it (known finding F43: the upper one is a slot short)
+from gnpy.core.elements import Edfa
+from gnpy.topology.spectrum_assignment import DEFAULT_GUARDBAND
+amps = [n for n in net0.nodes() if isinstance(n, Edfa)]
+f_lo, f_hi = max(x.params.f_min for x in amps) + DEFAULT_GUARDBAND, min(x.params.f_max for x in amps) - DEFAULT_GUARDBAND
+for n_fixed in list(range(-290, -282)) + list(range(470, 482)):
+    cases += 1
+    r = service('r', 'A', 'C', mode='mode 1')
+    r['path-constraints']['te-bandwidth']['effective-freq-slot'] = [{'N': n_fixed, 'M': 4}]
+    try:
+        _, pp, rpp, rqs, _, _ = planning(deepcopy(net0), deepcopy(eq0), {'path-request': [r], 'synchronization': []})
+    except Exception as e:
+        wit.append({'key': f'guard band: N={n_fixed}, M=4', 'problems': [f'{type(e).__name__}: {e}'[:200]]})
+        continue
+    if getattr(rqs[0], 'blocking_reason', None) is None:
+        lo, hi = 193.1e12 + (n_fixed - 4) * 6.25e9, 193.1e12 + (n_fixed + 4) * 6.25e9
+        if lo < f_lo - 1 or hi > f_hi + 1:
+            wit.append({'key': 'upper-guard-band-one-slot-short' if hi > f_hi + 1 and hi <= f_hi + 6.25e9 + 1 else f'guard band: N={n_fixed}, M=4',
+                        'problems': [f'N={n_fixed}, M=4 accepted: it occupies {lo * 1e-12:.5f} .. {hi * 1e-12:.5f} THz, the amplified band less the '
+                                     f'{DEFAULT_GUARDBAND * 1e-9:.0f} GHz guard bands is {f_lo * 1e-12:.5f} .. {f_hi * 1e-12:.5f} THz']})
 finish('user-fixed N / M entries of a service document: used as given, or refused / blocked', 'bounded',
        'gnpy.tools.json_io.requests_from_json / _check_one_request, gnpy.topology.spectrum_assignment.pth_assign_spectrum / compute_n_m (through planning)',
        f'{len(combos)} effective-freq-slot lists (1 - 2 entries exhaustively' + (', 3 entries sampled' if a.tier != 'quick' else ', every 5th pair') +
